@@ -79,6 +79,11 @@ func GetObject(rootGoitPath string, hash sha.SHA1) (*Object, error) {
 
 	objHash := checkSum.Sum(nil)
 
+	// the content must be the one that was asked for
+	if !hash.Compare(objHash) {
+		return nil, ErrInvalidObject
+	}
+
 	object := &Object{
 		Type: objType,
 		Hash: objHash,
